@@ -1179,8 +1179,9 @@ def r_keep_going(rule, root=None):
     """voxel `render_tile_recurse` answers `false` ("stop, this column of root tiles is finished") only when every
     pixel of the tile is filled: either it already was, or the tile is full (`upper() < 0`) and has just been
     filled.  An empty tile answers `true`: geometry may still lie in the root tiles below it."""
-    fn = worker_fn(VOX, "render_tile_recurse", root)
-    ivar = _interval_var(fn)
+    fn0 = worker_fn(VOX, "render_tile_recurse", root)
+    ivar = _interval_var(fn0)
+    fn = A.value_view(fn0)  # a named test (`let all_filled = ..; if all_filled {..}`) reads as the test itself
     cases = A.result_cases(fn["body"])
     if not cases:
         rule.lost("the results of voxel render_tile_recurse")
@@ -1197,8 +1198,14 @@ def r_keep_going(rule, root=None):
             continue
         nf += 1
         last = cs[-1] if cs else ""
+        # a test that was given a name (`let any_unfilled = ..;`) reads as the test
+        mname = re.fullmatch(r"(!?)\(?(\w+)\)?", last)
+        if mname:
+            for l_ in A.find(fn0["body"], "Let"):
+                if A.binding_name(l_["pat"]) == mname.group(2) and l_.get("init") is not None and not l_["pat"].get("mut"):
+                    last = mname.group(1) + str(txt(l_["init"]))
         full = ivar is not None and last.strip("()") in ("%s.upper()<0.0" % ivar, "0.0>%s.upper()" % ivar)
-        filled = ".all(" in last and "depth>=" in last and not last.startswith("!")
+        filled = ".depth" in last and ((".all(" in last and ">=" in last and ".any(" not in last and not last.startswith("!")) or (last.startswith("!") and ".any(" in last and "<" in last and ".all(" not in last and ">=" not in last))
         if full or filled:
             rule.ok("`false` only once the tile is filled (%s)" % ("full tile" if full else "already filled"), file=VOX, line=v.get("ln", fn["ln"]))
         else:
